@@ -46,6 +46,9 @@ type inv struct {
 	gate     chan hresult
 	released bool
 	cancSeen bool
+	res      hresult // fs mode: what the real handler returned
+	done     bool
+	doneSeen bool
 }
 
 type hresult struct {
@@ -111,7 +114,11 @@ func (h gateHandler) Handle(ctx context.Context, msg p9p.Message) (p9p.Message, 
 	w.mu.Unlock()
 	r := <-iv.gate
 	if w.inner != nil {
-		return w.inner.Handle(ctx, msg)
+		m, e := w.inner.Handle(ctx, msg)
+		w.mu.Lock()
+		iv.res, iv.done = hresult{m, e}, true
+		w.mu.Unlock()
+		return m, e
 	}
 	return r.msg, r.err
 }
@@ -303,9 +310,19 @@ func othersParked() bool {
 			continue
 		}
 		switch string(state) {
-		case "chan receive", "chan send", "select", "sync.Cond.Wait", "semacquire",
+		case "chan receive", "chan send", "select", "sync.Cond.Wait",
 			"sync.Mutex.Lock", "sync.RWMutex.Lock", "sync.RWMutex.RLock", "sync.WaitGroup.Wait",
 			"select (no cases)", "chan receive (nil chan)", "chan send (nil chan)":
+		case "semacquire":
+			// sync.WaitGroup.Wait parks with this reason, but so does runtime-internal waiting (a
+			// goroutine starting a GC cycle waits for the world semaphore this very dump holds)
+			end := bytes.Index(b, []byte("\n\n"))
+			if end < 0 {
+				end = len(b)
+			}
+			if !bytes.Contains(b[:end], []byte("sync.(*WaitGroup).Wait")) {
+				return false
+			}
 		default:
 			return false
 		}
